@@ -191,7 +191,8 @@ def freshLabels (m : SrcMap) : Bool := m.lists.all fun p => freshFrame p.2
 
 def classHasListDefault (lc : ListClass) : Bool := lc.props.any fun p => p.2.2 == Dflt.emptyList
 
-/-- some list class the converter casts into declares a `[]` default (Quaver `keysounds`: finding D08) -/
+/-- some list class the converter casts into declares a `[]` default (Quaver `keysounds`; before D08 was repaired
+`empty` left NaN there) -/
 def tgtHasListDefault (T : Tables) (c : Conv) : Bool :=
   c.casts.any fun cc => match findClass T.lcs cc.cls with
     | some lc => classHasListDefault lc
@@ -285,5 +286,20 @@ def srcMapOk (m : SrcMap) : Bool :=
    | some h, some l, some b =>
      (colsOf h keysHits).isSome && (colsOf l keysHolds).isSome && (colsOf b keysBpms).isSome
    | _, _, _ => false)
+
+/-- the source has its SV list, with the key columns, whenever both games have SVs -/
+def srcSvsOk (T : Tables) (c : Conv) (m : SrcMap) : Bool :=
+  if hasSvs T.mcs c.srcGame && hasSvs T.mcs c.tgtGame then
+    match m.lists.lookup "svs" with
+    | some s => (colsOf s keysSvs).isSome
+    | none => false
+  else true
+
+/-- no list of the source map holds a missing value, every column has full length -/
+def srcNoNan (m : SrcMap) : Bool := m.lists.all fun p => noNan p.2 && frameWF p.2
+
+/-- the hypotheses of the theorems about a whole conversion, on the source -/
+def srcOk (T : Tables) (c : Conv) (src : Src) : Bool :=
+  src.maps.all fun m => srcMapOk m && srcSvsOk T c m && srcNoNan m
 
 end Reamber.Convert
